@@ -70,6 +70,12 @@ def _handcrafted() -> list[dict]:
                 "commonStructs": [{"name": "Cfg", "versions": "0+", "fields": [{"name": "Level", "type": "int32", "versions": "0+", "default": "5"},
                                                                                {"name": "Label", "type": "string", "versions": "0+", "default": "x"}]}],
                 "_constructs": ["handcrafted:tagged-common-struct"], "_origin": "hand-crafted: tagged common-struct fields"})
+    # more tagged fields than one-byte tag numbers (upstream wants tags contiguous from 0, so large tags mean many fields): tag, count and the
+    # order of the section all go beyond the single-byte varint
+    out.append({"apiKey": 9002, "type": "request", "name": "ManyTagsRequest", "validVersions": "0", "flexibleVersions": "0+",
+                "fields": [{"name": "Plain", "type": "int16", "versions": "0+"}]
+                + [{"name": f"Opt{k}", "type": "int32" if k % 3 else "int16", "versions": "0+", "taggedVersions": "0+", "tag": k} for k in range(300)],
+                "_constructs": ["handcrafted:many-tags"], "_origin": "hand-crafted: 300 contiguous tagged fields"})
     return out
 
 
@@ -324,6 +330,15 @@ def _eval(batch_file: str, out_file: str) -> int:
                 if doc["tier"] == "quick":
                     rng.shuffle(trees)
                     trees = trees[:6]
+                if exp.tagged:
+                    # every tagged field on the wire at once: the order and framing of the whole tagged section
+                    try:
+                        full = g.all_tags_nondefault(exp)
+                    except Exception:  # noqa: BLE001
+                        full = None
+                    if full is not None:
+                        trees.insert(0, full)
+                        count("instances_with_every_tagged_field_set")
                 for tree in trees:
                     count("instances_encoded")
                     try:
